@@ -1,4 +1,5 @@
 #!/bin/sh
-# tools/build.sh <target.vo>...   — serialised (flock) incremental build of the given coq/ targets.
+# tools/build.sh <target.vo>... | all  — incremental full (.vo) build of coq/ targets (paths relative to coq/).
+# Safe to run concurrently with other builds (per-file locks, plain coqc, no Makefile).
 cd "$(dirname "$0")/.."
-exec flock .build.lock sh -c 'sh tools/gen_coqproject.sh && cd coq && timeout 1500 make -k -j8 "$@"' sh "$@"
+exec python3 tools/build.py -j8 "$@"
